@@ -271,9 +271,11 @@ Definition res_code (r : result) : Z := match r with ROk => 0 | RTimeout => 1 | 
    ctx: 0 = coroutine (armed by AtomicDuration; sleep: exact)   1 = thread (ThreadPark / thread::sleep: exact)
    t0:  clock at the call; events carry absolute times, sorted.
    -1 as result = the model never returns (parked without a timer).  When an event lands at the very instant at which
-   the caller can move, several orders are legal runs (policies 0 .. 3 of [sim]): the first one that yields the
-   observation is reported, the first one otherwise - so the answer equals the observation iff the model has a run
-   under the virtual-clock schedule that produces it. *)
+   the caller can move, several orders are legal runs (policies 0 .. 3 of [sim]).  The answer equals the observation
+   iff the model has a run under the virtual-clock schedule with the same result whose return time is the observed one
+   or up to 100 us earlier (see [spin_tol]); otherwise the answer is the model's own (result, time). *)
+Definition spin_tol := 100000.
+
 Definition tc_run (l : list Z) : list Z :=
   match l with
   | api :: ctx :: t0 :: d :: ob :: obt :: evl =>
@@ -286,11 +288,11 @@ Definition tc_run (l : list Z) : list Z :=
       | Some s1 =>
           let out r := match r with Some (r, t) => [res_code r; t] | None => [-1] end in
           let go pol := sim K retry arm 400 pol s1 (pairs evl) in
-          let ok r := match r with Some (r, t) => (res_code r =? ob) && (t =? obt) | None => false end in
-          if ok (go 0%nat) then out (go 0%nat)
-          else if ok (go 1%nat) then out (go 1%nat)
-          else if ok (go 2%nat) then out (go 2%nat)
-          else if ok (go 3%nat) then out (go 3%nat)
+          (* the observation is explained by a run of the model: same result, and the observed return time is the model's
+             or at most [spin_tol] later (a spin-wait of the runtime - wait_kernel, a lock - costs virtual time in the
+             harness when every runnable thread spins: a delay in the sense of the ghost [delay], never an early return) *)
+          let ok r := match r with Some (r, t) => (res_code r =? ob) && (t <=? obt) && (obt <=? t + spin_tol) | None => false end in
+          if ok (go 0%nat) || ok (go 1%nat) || ok (go 2%nat) || ok (go 3%nat) then [ob; obt]
           else out (go 0%nat)
       end
   | _ => [-3]
